@@ -1,3 +1,5 @@
+mod gen;
+mod pools;
 mod rng;
 mod run;
 mod tree;
@@ -44,6 +46,30 @@ fn main() {
                 }
             }
             eprintln!("replayed {} cases", n);
+        }
+        "drive" => {
+            // vh drive <topic> --tier quick|thorough --seed S --n N --out FILE
+            let topic = args[2].clone();
+            let thorough = arg_val(&args, "--tier").map(|t| t == "thorough").unwrap_or(false);
+            let n: usize = arg_val(&args, "--n").and_then(|s| s.parse().ok()).unwrap_or(1000);
+            let outp = arg_val(&args, "--out").expect("--out");
+            let mut out = BufWriter::new(std::fs::File::create(&outp).expect("out file"));
+            let mut run_rng = rng::Rng::new(seed ^ 0x5555);
+            let mut written = 0usize;
+            {
+                let mut emit = |c: run::Case| {
+                    let o = run::run_case(&c, &mut run_rng);
+                    writeln!(out, "{}", o).unwrap();
+                    written += 1;
+                };
+                let mut cx = gen::Ctx { rng: rng::Rng::new(seed), thorough, n, emit: &mut emit, count: 0, prefix: topic.clone() };
+                if !gen::run_topic(&topic, &mut cx) {
+                    eprintln!("unknown topic {}", topic);
+                    std::process::exit(2);
+                }
+            }
+            out.flush().unwrap();
+            eprintln!("drive {}: {} cases", topic, written);
         }
         "consts" => {
             println!("ts_min {} ts_max {} ns_max {}", chrono::DateTime::<chrono::Utc>::MIN_UTC.timestamp(), chrono::DateTime::<chrono::Utc>::MAX_UTC.timestamp(), chrono::DateTime::<chrono::Utc>::MAX_UTC.timestamp_subsec_nanos());
